@@ -227,24 +227,24 @@ def _get_tensor_transformation_params_wrapper(
     tensor_quant_config = op_info.op_quant_config.weight_tensor_config
   # Get quant params.
   if quant_params is None and tensor_quant_config is not None:
-    if tensor_name not in tensor_name_to_qsv:
-      if is_constant:
-        # We need min/max to calculate quantization parameters, which
-        # should be collected during the calibration process. However,
-        # weight-only and DRQ do not require calibration, thus it is
-        # possible that this information is missing here. In that case we
-        # collect min/max on the spot.
-        tensor_min_max = init_tensor_min_max(
-            tensor,
-            graph_info,
-            op_info,
-        )
-      else:
-        raise ValueError(
-            f"Tensor {tensor_name} not found in tensor_name_to_qsv. Check"
-            " if the correct calibration results are passed into the"
-            " ParamsGenerator."
-        )
+    if is_constant:
+      # The min/max of a constant are a function of its content and of the
+      # granularity the CURRENT config asks for. They are collected on the
+      # spot: weight-only and DRQ do not calibrate at all, and a calibration
+      # result may have been produced under another recipe (e.g. per-channel
+      # statistics reused with a per-tensor config), in which case its entry
+      # for the constant does not fit.
+      tensor_min_max = init_tensor_min_max(
+          tensor,
+          graph_info,
+          op_info,
+      )
+    elif tensor_name not in tensor_name_to_qsv:
+      raise ValueError(
+          f"Tensor {tensor_name} not found in tensor_name_to_qsv. Check"
+          " if the correct calibration results are passed into the"
+          " ParamsGenerator."
+      )
     else:
       tensor_min_max = tensor_name_to_qsv[tensor_name]
     quant_params = _get_tensor_quant_params(
